@@ -87,9 +87,10 @@ fn check_border(e: &Emu, cfg: &MCfg, start_colour: u8, writes: &[Write], frame_n
     Ok(())
 }
 
-fn load_snap(e: &mut Emu, m128: bool, border: u8, fmt: i64, fe_low: u8) -> Result<(), Fail> {
+fn load_snap(e: &mut Emu, m128: bool, border: u8, fmt: i64, fe_low: u8, frame_t: u32) -> Result<(), Fail> {
     let mut s = SnapState::new(m128);
     s.border = border;
+    s.frame_t = frame_t;
     s.cpu.pc = IDLE;
     s.cpu.sp = 0x8FF0;
     let r = if fmt == 0 {
@@ -233,7 +234,7 @@ impl Property for C09 {
         vec!["the write is taken to happen somewhere between the start of the port cycle and the end of the OUT instruction; pixels within 8 T of that span may show either colour", "code runs in uncontended RAM; ports have an uncontended high byte unless stated (the instants are observed, not predicted)"]
     }
     fn expected_probes(&self) -> Vec<&'static str> {
-        vec!["frame_without_write", "several_writes_one_line", "write_in_retrace", "write_straddles_frame_end", "write_in_last_lines", "snapshot_border", "write_before_first_border_line", "snapshot_between_frames", "szx_fe_low_differs", "program_multi_frame_call", "write_in_unpresented_frame", "even_port_other_than_fe"]
+        vec!["frame_without_write", "several_writes_one_line", "write_in_retrace", "write_straddles_frame_end", "write_in_last_lines", "snapshot_border", "write_before_first_border_line", "snapshot_between_frames", "szx_fe_low_differs", "program_multi_frame_call", "write_in_unpresented_frame", "even_port_other_than_fe", "szx_taken_inside_a_frame", "screenshot_between_frames", "rejected_file_between_frames"]
     }
 
     fn gen(&self, rng: &mut Rng, tier: Tier, _idx: u64) -> Scenario {
@@ -285,7 +286,10 @@ impl Property for C09 {
             if snap_mid && fr > 0 && rng.chance(1, 3) {
                 // the host loads a snapshot between two frames; the writes of the frame that follows are
                 // made by the loaded machine
-                sc.op("snap", &[rng.range(0, 7), rng.range(0, 1), rng.range(0, 7)]);
+                let ft = if rng.bool() { 0 } else { rng.range(1, f - 1) };
+                sc.op("snap", &[rng.range(0, 7), rng.range(0, 1), rng.range(0, 7), ft]);
+            } else if snap_mid && fr > 0 && rng.chance(1, 4) {
+                sc.op(if rng.bool() { "scr" } else { "rej" }, &[rng.range(0, 1 << 20)]);
             }
             let n = *rng.pick(&[0i64, 0, 1, 1, 2, 3, 5, 8, 12]);
             let mut ts: Vec<i64> = vec![];
@@ -337,7 +341,7 @@ impl Property for C09 {
             if snap_fmt == 1 && snap_fe != sb as u8 {
                 ctx.probe("szx_fe_low_differs");
             }
-            load_snap(&mut e, m128, sb as u8, snap_fmt, snap_fe)?;
+            load_snap(&mut e, m128, sb as u8, snap_fmt, snap_fe, 0)?;
         }
         write_mem(&mut e, IDLE, &[0xF3, 0x18, 0xFE]);
         write_mem(&mut e, OUTS, &[0xD3, 0xFE]);
@@ -470,9 +474,82 @@ impl Property for C09 {
                     if fmt == 1 && fe != b {
                         ctx.probe("szx_fe_low_differs");
                     }
-                    load_snap(&mut e, m128, b, fmt, fe)?;
+                    // an SZX file may have been taken anywhere inside a frame: the frame it restores has seen no write
+                    // on this machine, so its whole border shows the file's colour
+                    let ft = if fmt == 1 { op.arg(3).clamp(0, f - 1) as u32 } else { 0 };
+                    if ft > 0 {
+                        ctx.probe("szx_taken_inside_a_frame");
+                    }
+                    load_snap(&mut e, m128, b, fmt, fe, ft)?;
                     colour = b;
                     start_colour = b;
+                }
+                "scr" | "rej" => {
+                    // the host loads a screenshot (which carries no border), or offers a file the loader refuses:
+                    // the border stays what the last port write made it
+                    if frame_done || !cur.is_empty() || !pending.is_empty() || e.verif_frame_clocks() > 64 {
+                        continue;
+                    }
+                    let before = e.border_color() as u8;
+                    // what a refused snapshot file itself says (a loader that had applied the border before it found the
+                    // fault leaves that: "the border stored in the last loaded snapshot" read liberally)
+                    let mut file_border: Option<u8> = None;
+                    if op.k == "scr" {
+                        ctx.probe("screenshot_between_frames");
+                        let data = Rng::new(op.arg(0) as u64).bytes(6912);
+                        e.load_screen(rustzx_core::host::Screen::Scr(SimAsset::plain(data))).map_err(|x| Fail::new("C09.load", "", format!("load_screen: {:?}", x)))?;
+                    } else {
+                        ctx.probe("rejected_file_between_frames");
+                        let r = match op.arg(0) % 4 {
+                            0 => {
+                                // SNA with an interrupt mode that does not exist (found when the header is already read)
+                                let mut s = SnapState::new(m128);
+                                s.border = (before + 3) & 7;
+                                let mut bytes = if m128 { write_sna128(&s) } else { write_sna48(&s) };
+                                bytes[25] = 3;
+                                file_border = Some(s.border);
+                                e.load_snapshot(Snapshot::Sna(SimAsset::plain(bytes)))
+                            }
+                            1 => {
+                                // SZX cut inside a RAM page chunk
+                                let mut s = SnapState::new(m128);
+                                s.border = (before + 3) & 7;
+                                let full = write_szx(&s, &SzxOptions::default());
+                                file_border = Some(s.border);
+                                let cut = full.len() - 1 - (op.arg(0) as usize / 4) % 30000;
+                                e.load_snapshot(Snapshot::Szx(SimAsset::plain(full[..cut].to_vec())))
+                            }
+                            2 => {
+                                file_border = Some(0);
+                                e.load_snapshot(Snapshot::Sna(SimAsset::plain(vec![0u8; 1000])))
+                            }
+                            _ => e.load_screen(rustzx_core::host::Screen::Scr(SimAsset::plain(vec![0u8; 6911]))),
+                        };
+                        if r.is_ok() {
+                            // accepted after all: what it restored is C14's matter, this history ends here
+                            return Ok(());
+                        }
+                    }
+                    // (a refused file may have replaced memory before the fault was found: the harness's stubs go back)
+                    write_mem(&mut e, IDLE, &[0xF3, 0x18, 0xFE]);
+                    write_mem(&mut e, OUTS, &[0xD3, 0xFE]);
+                    write_mem(&mut e, OUTC, &[0xED, 0x79]);
+                    let mut st = cpu_state(&mut e);
+                    st.pc = IDLE;
+                    st.sp = 0x8FF0;
+                    st.iff1 = false;
+                    st.iff2 = false;
+                    st.halted = false;
+                    st.to_impl(e.verif_cpu());
+                    colour = e.border_color() as u8;
+                    start_colour = colour;
+                    if e.border_color() as u8 != before && Some(e.border_color() as u8) != file_border {
+                        return Err(Fail::new(
+                            "C09.border_changed_by_load",
+                            &format!("machine={},what={}", if m128 { "128k" } else { "48k" }, op.k),
+                            format!("border_color() was {} before and is {} after {} (border in the refused file: {:?})", before, e.border_color() as u8, if op.k == "scr" { "loading a screenshot" } else { "a load attempt that was refused" }, file_border),
+                        ));
+                    }
                 }
                 "frame" => {
                     if !frame_done {
